@@ -424,3 +424,864 @@ Proof.
       * apply Z.eqb_eq in E. subst x. cbn [orb]. destruct (mem c t); [reflexivity|apply aget_adel_eq].
       * apply Z.eqb_neq in E. cbn [orb]. destruct (mem x t); [reflexivity|apply aget_adel_neq; exact E].
 Qed.
+
+(* ------------------------------------------------------------------ the invariant *)
+Record Inv (st : state) : Prop := {
+  inv_sorted : ssorted (schedule st);
+  inv_occ : forall c, occ c (schedule st) = if aget c (queued st) then 1%nat else 0%nat;
+  inv_qphase : forall c, aget c (queued st) <> None ->
+      aget c (phases st) = Some Launched \/ aget c (phases st) = Some Stopped;
+  inv_cur : forall c, aget c (phases st) <> None -> aget c (cur st) <> None;
+  inv_ids : forall c, aget c (phases st) <> None -> c < next_id st;
+  inv_diff : forall c p q, aget c (cur st) = Some p -> aget c (queued st) = Some q -> params_eqb p q = false
+}.
+
+Lemma inv_init : Inv init.
+Proof.
+  constructor; cbn; try (intros; congruence); try (intros; reflexivity). constructor.
+Qed.
+
+Lemma occ_le_1 st c : Inv st -> (occ c (schedule st) <= 1)%nat.
+Proof. intros H. rewrite (inv_occ st H). destruct (aget c (queued st)); lia. Qed.
+
+Lemma occ_pos_queued st c : Inv st -> (0 < occ c (schedule st))%nat -> aget c (queued st) <> None.
+Proof. intros H. rewrite (inv_occ st H). destruct (aget c (queued st)); [congruence|lia]. Qed.
+
+Lemma queued_none_occ st c : Inv st -> aget c (queued st) = None -> occ c (schedule st) = 0%nat.
+Proof. intros H Hq. rewrite (inv_occ st H), Hq. reflexivity. Qed.
+
+Lemma is_prelaunch_true st c : is_prelaunch st c = true -> aget c (phases st) = Some Prelaunch.
+Proof. unfold is_prelaunch. destruct (aget c (phases st)) as [[]|]; congruence. Qed.
+
+Lemma is_launched_true st c : is_launched st c = true <-> aget c (phases st) = Some Launched.
+Proof. unfold is_launched. destruct (aget c (phases st)) as [[]|]; split; congruence. Qed.
+
+Lemma active_not_prelaunch st c : is_active st c = true -> is_prelaunch st c = false -> aget c (phases st) = Some Launched.
+Proof. unfold is_active. intros H H0. rewrite H0 in H. cbn [orb] in H. apply is_launched_true. exact H. Qed.
+
+(* UpdateQueuedInfractionParams on a launched consumer *)
+Lemma update_queued_spec st c cp np u :
+  Inv st -> aget c (phases st) = Some Launched -> aget c (cur st) = Some cp ->
+  exists st', update_queued c np u st = Some st' /\ Inv st' /\
+    clock st' = clock st /\ next_id st' = next_id st /\ phases st' = phases st /\ cur st' = cur st /\
+    (if params_eqb cp np
+     then aget c (queued st') = None /\ occ c (schedule st') = 0%nat
+     else aget c (queued st') = Some np /\ due_of c (schedule st') = Some (clock st + u)) /\
+    (forall x, x <> c -> aget x (queued st') = aget x (queued st) /\
+                         due_of x (schedule st') = due_of x (schedule st)).
+Proof.
+  intros HI Hph Hcur. unfold update_queued.
+  destruct (remove_queued_data c (queued st) (schedule st)) as [q1 s1] eqn:Er.
+  destruct (remove_queued_data_spec c (queued st) (schedule st) (inv_sorted st HI) (inv_occ st HI) q1 s1 Er)
+    as [Hq1 [Ho1 [Hs1 [Hqx [Hox Hdx]]]]].
+  rewrite Hcur. destruct (params_eqb cp np) eqn:Eeq.
+  - eexists. split; [reflexivity|]. cbn [clock next_id phases cur queued schedule].
+    split; [|repeat split; try reflexivity; try assumption].
+    + constructor; cbn [clock next_id phases cur queued schedule].
+      * exact Hs1.
+      * intros x. destruct (Z.eq_dec x c) as [->|Hx]; [rewrite Ho1, Hq1; reflexivity|].
+        rewrite (Hox x Hx), (Hqx x Hx). apply (inv_occ st HI).
+      * intros x Hx. destruct (Z.eq_dec x c) as [->|Hne]; [congruence|]. rewrite (Hqx x Hne) in Hx. exact (inv_qphase st HI x Hx).
+      * exact (inv_cur st HI).
+      * exact (inv_ids st HI).
+      * intros x p q Hp Hq. destruct (Z.eq_dec x c) as [->|Hne]; [congruence|]. rewrite (Hqx x Hne) in Hq.
+        exact (inv_diff st HI x p q Hp Hq).
+    + exact (Hqx x H).
+    + exact (Hdx x H).
+  - eexists. split; [reflexivity|]. cbn [clock next_id phases cur queued schedule].
+    split; [|repeat split; try reflexivity].
+    + constructor; cbn [clock next_id phases cur queued schedule].
+      * apply ssorted_append. exact Hs1.
+      * intros x. rewrite occ_append. destruct (Z.eq_dec c x) as [<-|Hx].
+        -- rewrite Ho1, aget_aput_eq. reflexivity.
+        -- rewrite aget_aput_neq by congruence. rewrite (Hox x), (Hqx x) by congruence.
+           rewrite (inv_occ st HI x). lia.
+      * intros x Hx. destruct (Z.eq_dec x c) as [->|Hne]; [left; exact Hph|].
+        rewrite aget_aput_neq in Hx by exact Hne. rewrite (Hqx x Hne) in Hx. exact (inv_qphase st HI x Hx).
+      * exact (inv_cur st HI).
+      * exact (inv_ids st HI).
+      * intros x p q Hp Hq. destruct (Z.eq_dec x c) as [->|Hne].
+        -- rewrite aget_aput_eq in Hq. congruence.
+        -- rewrite aget_aput_neq in Hq by exact Hne. rewrite (Hqx x Hne) in Hq. exact (inv_diff st HI x p q Hp Hq).
+    + apply aget_aput_eq.
+    + apply due_of_append_same. exact Ho1.
+    + rewrite aget_aput_neq by exact H. exact (Hqx x H).
+    + rewrite due_of_append_other by exact H. exact (Hdx x H).
+Qed.
+
+(* BeginBlockUpdateInfractionParameters *)
+Definition applied_now (c now : Z) (st : state) : bool := mem c (firstn limit (due_list now (schedule st))).
+
+Lemma begin_block_spec st now :
+  Inv st ->
+  exists st', begin_block now st = (st', r_ok) /\ Inv st' /\
+    clock st' = now /\ next_id st' = next_id st /\ phases st' = phases st /\
+    (forall c, if applied_now c now st
+               then aget c (cur st') = aget c (queued st) /\ aget c (queued st) <> None /\
+                    aget c (queued st') = None /\ occ c (schedule st') = 0%nat
+               else aget c (cur st') = aget c (cur st) /\ aget c (queued st') = aget c (queued st) /\
+                    due_of c (schedule st') = due_of c (schedule st)).
+Proof.
+  intros HI. unfold begin_block, applied_now.
+  pose proof (consume_fst now (schedule st) limit) as Hfst.
+  pose proof (fun c => consume_occ now c (schedule st) limit) as Hocc.
+  pose proof (consume_sorted now (schedule st) limit (inv_sorted st HI)) as [Hsrt _].
+  pose proof (fun c => consume_due_of now c (schedule st) limit) as Hdue.
+  destruct (consume now limit (schedule st)) as [ids s'] eqn:Ec. cbn [fst snd] in *.
+  assert (Hcnt : forall c, (count_occ Z.eq_dec ids c <= 1)%nat).
+  { intros c. pose proof (occ_le_1 st c HI). specialize (Hocc c). lia. }
+  assert (Hnd : NoDup ids) by (apply (NoDup_count_occ Z.eq_dec); exact Hcnt).
+  assert (Hq : forall c, In c ids -> aget c (queued st) <> None).
+  { intros c Hin. apply occ_pos_queued; [exact HI|]. apply (count_occ_In Z.eq_dec) in Hin. specialize (Hocc c). lia. }
+  destruct (apply_ids_spec ids (cur st) (queued st) Hnd Hq) as [cu' [q' [Ha [Hcu Hq']]]]. rewrite Ha.
+  eexists. split; [reflexivity|]. cbn [clock next_id phases cur queued schedule].
+  assert (Hper : forall c, if mem c ids
+               then aget c cu' = aget c (queued st) /\ aget c (queued st) <> None /\
+                    aget c q' = None /\ occ c s' = 0%nat
+               else aget c cu' = aget c (cur st) /\ aget c q' = aget c (queued st) /\
+                    due_of c s' = due_of c (schedule st)).
+  { intros c. specialize (Hcu c). specialize (Hq' c). destruct (mem c ids) eqn:Hm.
+    - assert (Hin : In c ids) by (apply mem_true_iff; exact Hm).
+      repeat split; [exact Hcu|exact (Hq c Hin)|exact Hq'|].
+      pose proof (occ_le_1 st c HI). specialize (Hocc c). apply (count_occ_In Z.eq_dec) in Hin. lia.
+    - repeat split; [exact Hcu|exact Hq'|]. apply Hdue. apply mem_false_count. exact Hm. }
+  split; [|repeat split; try reflexivity].
+  - constructor; cbn [clock next_id phases cur queued schedule].
+    + exact Hsrt.
+    + intros c. specialize (Hper c). specialize (Hocc c). destruct (mem c ids) eqn:Hm.
+      * destruct Hper as [_ [_ [Hn Hz]]]. rewrite Hn, Hz. reflexivity.
+      * destruct Hper as [_ [Hs _]]. rewrite Hs. apply mem_false_count in Hm. rewrite <- (inv_occ st HI c). lia.
+    + intros c Hc. specialize (Hper c). destruct (mem c ids).
+      * destruct Hper as [_ [_ [Hn _]]]. congruence.
+      * destruct Hper as [_ [Hs _]]. rewrite Hs in Hc. exact (inv_qphase st HI c Hc).
+    + intros c Hc. specialize (Hper c). destruct (mem c ids).
+      * destruct Hper as [H1 [H2 _]]. rewrite H1. exact H2.
+      * destruct Hper as [H1 _]. rewrite H1. exact (inv_cur st HI c Hc).
+    + exact (inv_ids st HI).
+    + intros c p q Hp Hqq. specialize (Hper c). destruct (mem c ids).
+      * destruct Hper as [_ [_ [Hn _]]]. congruence.
+      * destruct Hper as [H1 [H2 _]]. rewrite H1 in Hp. rewrite H2 in Hqq. exact (inv_diff st HI c p q Hp Hqq).
+  - intros c. rewrite <- Hfst. exact (Hper c).
+Qed.
+
+(* ------------------------------------------------------------------ every step preserves the invariant *)
+Lemma fresh_id st : Inv st -> aget (next_id st) (phases st) = None /\ aget (next_id st) (queued st) = None.
+Proof.
+  intros HI. assert (Hp : aget (next_id st) (phases st) = None).
+  { destruct (aget (next_id st) (phases st)) eqn:E; [|reflexivity].
+    assert (Hne : aget (next_id st) (phases st) <> None) by congruence. pose proof (inv_ids st HI _ Hne). lia. }
+  split; [exact Hp|]. destruct (aget (next_id st) (queued st)) eqn:E; [|reflexivity].
+  assert (Hne : aget (next_id st) (queued st) <> None) by congruence.
+  destruct (inv_qphase st HI _ Hne); congruence.
+Qed.
+
+Lemma inv_set_phase st c ph :
+  Inv st -> aget c (phases st) <> None -> (ph = Launched \/ ph = Stopped \/ aget c (queued st) = None) ->
+  Inv (set_phase c ph st).
+Proof.
+  intros HI Hex Hph. constructor; cbn [set_phase clock next_id phases cur queued schedule].
+  - exact (inv_sorted st HI).
+  - exact (inv_occ st HI).
+  - intros x Hx. destruct (Z.eq_dec x c) as [->|Hne].
+    + rewrite aget_aput_eq. destruct Hph as [->|[->|Hn]]; [left; reflexivity|right; reflexivity|congruence].
+    + rewrite aget_aput_neq by exact Hne. exact (inv_qphase st HI x Hx).
+  - intros x Hx. destruct (Z.eq_dec x c) as [->|Hne]; [exact (inv_cur st HI c Hex)|].
+    rewrite aget_aput_neq in Hx by exact Hne. exact (inv_cur st HI x Hx).
+  - intros x Hx. destruct (Z.eq_dec x c) as [->|Hne]; [exact (inv_ids st HI c Hex)|].
+    rewrite aget_aput_neq in Hx by exact Hne. exact (inv_ids st HI x Hx).
+  - exact (inv_diff st HI).
+Qed.
+
+Lemma inv_create st d r : Inv st -> Inv (fst (create d r st)).
+Proof.
+  intros HI. unfold create. destruct (negb (valid_req r)); [exact HI|]. cbn [fst].
+  destruct (fresh_id st HI) as [Hfp Hfq].
+  constructor; cbn [clock next_id phases cur queued schedule].
+  - exact (inv_sorted st HI).
+  - exact (inv_occ st HI).
+  - intros x Hx. destruct (Z.eq_dec x (next_id st)) as [->|Hne]; [congruence|].
+    rewrite aget_aput_neq by exact Hne. exact (inv_qphase st HI x Hx).
+  - intros x Hx. destruct (Z.eq_dec x (next_id st)) as [->|Hne]; [rewrite aget_aput_eq; discriminate|].
+    rewrite aget_aput_neq in Hx by exact Hne. rewrite aget_aput_neq by exact Hne. exact (inv_cur st HI x Hx).
+  - intros x Hx. destruct (Z.eq_dec x (next_id st)) as [->|Hne]; [lia|].
+    rewrite aget_aput_neq in Hx by exact Hne. pose proof (inv_ids st HI x Hx). lia.
+  - intros x p q Hp Hq. destruct (Z.eq_dec x (next_id st)) as [->|Hne]; [congruence|].
+    rewrite aget_aput_neq in Hp by exact Hne. exact (inv_diff st HI x p q Hp Hq).
+Qed.
+
+Lemma inv_update st c ow r u : Inv st -> Inv (fst (update c ow r u st)).
+Proof.
+  intros HI. unfold update. destruct (negb (valid_req r)); [exact HI|].
+  destruct (is_active st c) eqn:Ea; cbn [negb]; [|exact HI]. destruct ow; cbn [negb]; [|exact HI].
+  destruct r as [hv|]; [|exact HI]. destruct (aget c (cur st)) as [cp|] eqn:Ecur; [|exact HI].
+  destruct (is_prelaunch st c) eqn:Ep.
+  - cbn [fst]. apply is_prelaunch_true in Ep.
+    assert (Hqn : aget c (queued st) = None).
+    { destruct (aget c (queued st)) eqn:E; [|reflexivity].
+      assert (Hne : aget c (queued st) <> None) by congruence. destruct (inv_qphase st HI c Hne); congruence. }
+    constructor; cbn [clock next_id phases cur queued schedule].
+    + exact (inv_sorted st HI).
+    + exact (inv_occ st HI).
+    + exact (inv_qphase st HI).
+    + intros x Hx. destruct (Z.eq_dec x c) as [->|Hne]; [rewrite aget_aput_eq; discriminate|].
+      rewrite aget_aput_neq by exact Hne. exact (inv_cur st HI x Hx).
+    + exact (inv_ids st HI).
+    + intros x p q Hp Hq. destruct (Z.eq_dec x c) as [->|Hne]; [congruence|].
+      rewrite aget_aput_neq in Hp by exact Hne. exact (inv_diff st HI x p q Hp Hq).
+  - pose proof (active_not_prelaunch st c Ea Ep) as Hl.
+    destruct (update_queued_spec st c cp (merge cp hv) u HI Hl Ecur) as [st' [Hu [HI' _]]].
+    rewrite Hu. exact HI'.
+Qed.
+
+Lemma inv_queue_direct st c p u : Inv st -> Inv (fst (queue_direct c p u st)).
+Proof.
+  intros HI. unfold queue_direct. destruct (is_launched st c) eqn:El; cbn [negb]; [|exact HI].
+  apply is_launched_true in El.
+  destruct (aget c (cur st)) as [cp|] eqn:Ecur.
+  - destruct (update_queued_spec st c cp p u HI El Ecur) as [st' [Hu [HI' _]]]. rewrite Hu. exact HI'.
+  - exfalso. apply (inv_cur st HI c); [congruence|exact Ecur].
+Qed.
+
+Lemma inv_launch st c : Inv st -> Inv (fst (launch c st)).
+Proof.
+  intros HI. unfold launch. destruct (is_prelaunch st c) eqn:Ep; [|exact HI]. cbn [fst].
+  apply is_prelaunch_true in Ep. apply inv_set_phase; [exact HI|congruence|left; reflexivity].
+Qed.
+
+Lemma inv_stop st c ow : Inv st -> Inv (fst (stop c ow st)).
+Proof.
+  intros HI. unfold stop. destruct (aget c (phases st)) as [ph|] eqn:Eph; [|exact HI].
+  destruct ow; cbn [negb]; [|exact HI]. destruct ph; try exact HI. cbn [fst].
+  apply inv_set_phase; [exact HI|congruence|right; left; reflexivity].
+Qed.
+
+Lemma delete_spec st c :
+  Inv st -> aget c (phases st) = Some Stopped ->
+  exists st', delete c st = (st', r_ok) /\ Inv st' /\
+    clock st' = clock st /\ cur st' = cur st /\ aget c (phases st') = Some Deleted /\
+    (forall x, x <> c -> aget x (phases st') = aget x (phases st)) /\
+    aget c (queued st') = None /\ occ c (schedule st') = 0%nat /\
+    (forall x, x <> c -> aget x (queued st') = aget x (queued st) /\
+                         due_of x (schedule st') = due_of x (schedule st)).
+Proof.
+  intros HI Hph. unfold delete. rewrite Hph.
+  destruct (remove_queued_data c (queued st) (schedule st)) as [q1 s1] eqn:Er.
+  destruct (remove_queued_data_spec c (queued st) (schedule st) (inv_sorted st HI) (inv_occ st HI) q1 s1 Er)
+    as [Hq1 [Ho1 [Hs1 [Hqx [Hox Hdx]]]]].
+  eexists. split; [reflexivity|]. cbn [clock next_id phases cur queued schedule].
+  refine (conj _ (conj eq_refl (conj eq_refl (conj _ (conj _ (conj Hq1 (conj Ho1 _))))))).
+  - constructor; cbn [clock next_id phases cur queued schedule].
+    + exact Hs1.
+    + intros x. destruct (Z.eq_dec x c) as [->|Hx]; [rewrite Ho1, Hq1; reflexivity|].
+      rewrite (Hox x Hx), (Hqx x Hx). apply (inv_occ st HI).
+    + intros x Hx. destruct (Z.eq_dec x c) as [->|Hne]; [congruence|]. rewrite (Hqx x Hne) in Hx.
+      rewrite aget_aput_neq by exact Hne. exact (inv_qphase st HI x Hx).
+    + intros x Hx. destruct (Z.eq_dec x c) as [->|Hne]; [apply (inv_cur st HI c); congruence|].
+      rewrite aget_aput_neq in Hx by exact Hne. exact (inv_cur st HI x Hx).
+    + intros x Hx. destruct (Z.eq_dec x c) as [->|Hne]; [apply (inv_ids st HI c); congruence|].
+      rewrite aget_aput_neq in Hx by exact Hne. exact (inv_ids st HI x Hx).
+    + intros x p q Hp Hq. destruct (Z.eq_dec x c) as [->|Hne]; [congruence|]. rewrite (Hqx x Hne) in Hq.
+      exact (inv_diff st HI x p q Hp Hq).
+  - apply aget_aput_eq.
+  - intros x Hx. apply aget_aput_neq. exact Hx.
+  - intros x Hx. split; [exact (Hqx x Hx)|exact (Hdx x Hx)].
+Qed.
+
+Lemma inv_delete st c : Inv st -> Inv (fst (delete c st)).
+Proof.
+  intros HI. destruct (aget c (phases st)) as [ph|] eqn:Eph.
+  - destruct ph; try (unfold delete; rewrite Eph; exact HI).
+    destruct (delete_spec st c HI Eph) as [st' [Hd [HI' _]]]. rewrite Hd. exact HI'.
+  - unfold delete. rewrite Eph. exact HI.
+Qed.
+
+Lemma inv_step st o : Inv st -> Inv (step st o).
+Proof.
+  intros HI. unfold step. destruct o; cbn [step_res].
+  - apply inv_create. exact HI.
+  - apply inv_update. exact HI.
+  - apply inv_queue_direct. exact HI.
+  - apply inv_launch. exact HI.
+  - apply inv_stop. exact HI.
+  - apply inv_delete. exact HI.
+  - destruct (begin_block_spec st now HI) as [st' [Hb [HI' _]]]. rewrite Hb. exact HI'.
+  - exact HI.
+Qed.
+
+Lemma inv_exec ops : forall st, Inv st -> Inv (exec st ops).
+Proof.
+  induction ops as [|o t IH]; intros st HI; [exact HI|]. cbn [exec fold_left]. apply IH. apply inv_step. exact HI.
+Qed.
+
+Lemma inv_reachable ops : Inv (exec init ops).
+Proof. apply inv_exec. exact inv_init. Qed.
+
+(* ------------------------------------------------------------------ frames *)
+Definition request_on (c : Z) (o : op) : bool :=
+  match o with
+  | OUpdate c' _ (Some _) _ => c' =? c
+  | OQueue c' _ _ => c' =? c
+  | _ => false
+  end.
+Definition delete_of (c : Z) (o : op) : bool := match o with ODelete c' => c' =? c | _ => false end.
+Definition is_block (o : op) : bool := match o with OBeginBlock _ => true | _ => false end.
+(* neither a request on c nor the deletion of c *)
+Definition quiet_op (c : Z) (o : op) : bool := negb (request_on c o) && negb (delete_of c o).
+Definition quiet (c : Z) (ops : list op) : bool := forallb (quiet_op c) ops.
+
+Lemma update_queued_frame c p u st st' :
+  update_queued c p u st = Some st' ->
+  phases st' = phases st /\ cur st' = cur st /\ clock st' = clock st /\ next_id st' = next_id st.
+Proof.
+  unfold update_queued. destruct (remove_queued_data c (queued st) (schedule st)) as [q1 s1].
+  destruct (aget c (cur st)); [|discriminate]. destruct (params_eqb p0 p); intros H; inversion H; subst; cbn; tauto.
+Qed.
+
+(* phases only move forward *)
+Lemma phases_step st o x :
+  Inv st ->
+  aget x (phases (step st o)) = aget x (phases st) \/
+  (aget x (phases st) = None /\ aget x (phases (step st o)) = Some Prelaunch) \/
+  (aget x (phases st) = Some Prelaunch /\ aget x (phases (step st o)) = Some Launched) \/
+  (aget x (phases st) = Some Launched /\ aget x (phases (step st o)) = Some Stopped) \/
+  (aget x (phases st) = Some Stopped /\ aget x (phases (step st o)) = Some Deleted).
+Proof.
+  intros HI. unfold step. destruct o; cbn [step_res].
+  - unfold create. destruct (negb (valid_req r)); [left; reflexivity|]. cbn [fst phases].
+    destruct (Z.eq_dec x (next_id st)) as [->|Hne].
+    + right. left. split; [exact (proj1 (fresh_id st HI))|apply aget_aput_eq].
+    + left. apply aget_aput_neq. exact Hne.
+  - left. unfold update. destruct (negb (valid_req r)); [reflexivity|].
+    destruct (negb (is_active st c)); [reflexivity|]. destruct (negb owner); [reflexivity|].
+    destruct r; [|reflexivity]. destruct (aget c (cur st)); [|reflexivity].
+    destruct (is_prelaunch st c); [reflexivity|].
+    destruct (update_queued c (merge p0 p) u st) eqn:E; [|reflexivity].
+    cbn [fst]. rewrite (proj1 (update_queued_frame _ _ _ _ _ E)). reflexivity.
+  - left. unfold queue_direct. destruct (negb (is_launched st c)); [reflexivity|].
+    destruct (update_queued c p u st) eqn:E; [|reflexivity].
+    cbn [fst]. rewrite (proj1 (update_queued_frame _ _ _ _ _ E)). reflexivity.
+  - unfold launch. destruct (is_prelaunch st c) eqn:Ep; [|left; reflexivity]. cbn [fst set_phase phases].
+    apply is_prelaunch_true in Ep. destruct (Z.eq_dec x c) as [->|Hne].
+    + right. right. left. split; [exact Ep|apply aget_aput_eq].
+    + left. apply aget_aput_neq. exact Hne.
+  - unfold stop. destruct (aget c (phases st)) as [ph|] eqn:Eph; [|left; reflexivity].
+    destruct (negb owner); [left; reflexivity|]. destruct ph; try (left; reflexivity). cbn [fst set_phase phases].
+    destruct (Z.eq_dec x c) as [->|Hne].
+    + right. right. right. left. split; [exact Eph|apply aget_aput_eq].
+    + left. apply aget_aput_neq. exact Hne.
+  - unfold delete. destruct (aget c (phases st)) as [ph|] eqn:Eph; [|left; reflexivity].
+    destruct ph; try (left; reflexivity).
+    destruct (remove_queued_data c (queued st) (schedule st)) as [q1 s1]. cbn [fst phases].
+    destruct (Z.eq_dec x c) as [->|Hne].
+    + right. right. right. right. split; [exact Eph|apply aget_aput_eq].
+    + left. apply aget_aput_neq. exact Hne.
+  - left. destruct (begin_block_spec st now HI) as [st' [Hb [_ [_ [_ [Hp _]]]]]]. rewrite Hb. cbn [fst]. rewrite Hp. reflexivity.
+  - left. reflexivity.
+Qed.
+
+Lemma exists_step st o c : Inv st -> aget c (phases st) <> None -> aget c (phases (step st o)) <> None.
+Proof.
+  intros HI Hex. destruct (phases_step st o c HI) as [H|[[H _]|[[_ H]|[[_ H]|[_ H]]]]]; congruence.
+Qed.
+
+(* what a step that is not a begin-block and not a request on c does to c *)
+Lemma frame st o c :
+  Inv st -> request_on c o = false -> is_block o = false ->
+  (aget c (phases st) <> None -> aget c (cur (step st o)) = aget c (cur st)) /\
+  ((aget c (queued (step st o)) = aget c (queued st) /\ due_of c (schedule (step st o)) = due_of c (schedule st)) \/
+   (delete_of c o = true /\ aget c (queued (step st o)) = None /\ occ c (schedule (step st o)) = 0%nat)).
+Proof.
+  intros HI Hreq Hblk. unfold step. destruct o; cbn [step_res]; cbn [request_on is_block] in *; try discriminate.
+  - unfold create. destruct (negb (valid_req r)); [split; [reflexivity|left; split; reflexivity]|].
+    cbn [fst cur queued schedule]. split; [|left; split; reflexivity].
+    intros Hex. apply aget_aput_neq. pose proof (inv_ids st HI c Hex). lia.
+  - unfold update. destruct (negb (valid_req r)); [split; [reflexivity|left; split; reflexivity]|].
+    destruct (is_active st c0) eqn:Ea; cbn [negb]; [|split; [reflexivity|left; split; reflexivity]].
+    destruct owner; cbn [negb]; [|split; [reflexivity|left; split; reflexivity]].
+    destruct r as [hv|]; [|split; [reflexivity|left; split; reflexivity]].
+    apply Z.eqb_neq in Hreq.
+    destruct (aget c0 (cur st)) as [cp|] eqn:Ecur; [|split; [reflexivity|left; split; reflexivity]].
+    destruct (is_prelaunch st c0) eqn:Ep.
+    + cbn [fst cur queued schedule]. split; [|left; split; reflexivity].
+      intros _. apply aget_aput_neq. congruence.
+    + pose proof (active_not_prelaunch st c0 Ea Ep) as Hl.
+      destruct (update_queued_spec st c0 cp (merge cp hv) u HI Hl Ecur) as [st' [Hu [_ [_ [_ [_ [Hc [_ Hx]]]]]]]].
+      rewrite Hu. cbn [fst]. rewrite Hc. split; [reflexivity|]. left. apply Hx. congruence.
+  - apply Z.eqb_neq in Hreq. unfold queue_direct.
+    destruct (is_launched st c0) eqn:El; cbn [negb]; [|split; [reflexivity|left; split; reflexivity]].
+    apply is_launched_true in El. destruct (aget c0 (cur st)) as [cp|] eqn:Ecur.
+    + destruct (update_queued_spec st c0 cp p u HI El Ecur) as [st' [Hu [_ [_ [_ [_ [Hc [_ Hx]]]]]]]].
+      rewrite Hu. cbn [fst]. rewrite Hc. split; [reflexivity|]. left. apply Hx. congruence.
+    + exfalso. apply (inv_cur st HI c0); [congruence|exact Ecur].
+  - unfold launch. destruct (is_prelaunch st c0); split; try reflexivity; left; split; reflexivity.
+  - unfold stop. destruct (aget c0 (phases st)) as [ph|]; [|split; [reflexivity|left; split; reflexivity]].
+    destruct (negb owner); [split; [reflexivity|left; split; reflexivity]|].
+    destruct ph; split; try reflexivity; left; split; reflexivity.
+  - destruct (aget c0 (phases st)) as [ph|] eqn:Eph.
+    + destruct ph; try (unfold delete; rewrite Eph; split; [reflexivity|left; split; reflexivity]).
+      destruct (delete_spec st c0 HI Eph) as [st' [Hd [_ [_ [Hc [_ [_ [Hq [Ho Hx]]]]]]]]].
+      rewrite Hd. cbn [fst]. rewrite Hc. split; [reflexivity|].
+      destruct (Z.eq_dec c c0) as [->|Hne].
+      * right. cbn [delete_of]. rewrite Z.eqb_refl. repeat split; assumption.
+      * left. apply Hx. exact Hne.
+    + unfold delete. rewrite Eph. split; [reflexivity|left; split; reflexivity].
+  - split; [reflexivity|left; split; reflexivity].
+Qed.
+
+Lemma in_firstn {A} (x : A) (n : nat) (l : list A) : In x (firstn n l) -> In x l.
+Proof. intros H. rewrite <- (firstn_skipn n l). apply in_or_app. left. exact H. Qed.
+
+Lemma not_queued_not_applied st c now : Inv st -> aget c (queued st) = None -> applied_now c now st = false.
+Proof.
+  intros HI Hq. unfold applied_now. apply mem_false_iff. intros Hin.
+  apply in_firstn in Hin. apply due_list_in_occ in Hin. rewrite (queued_none_occ st c HI Hq) in Hin. lia.
+Qed.
+
+(* ------------------------------------------------------------------ requests *)
+(* o is a request for the parameter set np on consumer c, made while the unbonding period is u *)
+Definition is_request (st : state) (c : Z) (np : params) (u : Z) (o : op) : Prop :=
+  o = OQueue c np u \/
+  exists hv cp, o = OUpdate c true (Some hv) u /\ valid_req (Some hv) = true /\
+                aget c (cur st) = Some cp /\ np = merge cp hv.
+
+Lemma request_spec st c cp np u o :
+  Inv st -> aget c (phases st) = Some Launched -> aget c (cur st) = Some cp -> is_request st c np u o ->
+  snd (step_res st o) = r_ok /\
+  aget c (cur (step st o)) = Some cp /\ clock (step st o) = clock st /\
+  (if params_eqb cp np
+   then aget c (queued (step st o)) = None /\ occ c (schedule (step st o)) = 0%nat
+   else aget c (queued (step st o)) = Some np /\ due_of c (schedule (step st o)) = Some (clock st + u)).
+Proof.
+  intros HI Hph Hcur Hreq.
+  destruct (update_queued_spec st c cp np u HI Hph Hcur) as [st' [Hu [_ [Hck [_ [_ [Hc [Hres _]]]]]]]].
+  assert (Hl : is_launched st c = true) by (apply is_launched_true; exact Hph).
+  assert (Hnp : is_prelaunch st c = false) by (unfold is_prelaunch; rewrite Hph; reflexivity).
+  assert (Hstep : step_res st o = (st', r_ok)).
+  { destruct Hreq as [->|[hv [cp' [-> [Hv [Hcur' ->]]]]]]; cbn [step_res].
+    - unfold queue_direct. rewrite Hl. cbn [negb]. rewrite Hu. reflexivity.
+    - unfold update. rewrite Hv. cbn [negb]. unfold is_active. rewrite Hl, orb_true_r. cbn [negb].
+      rewrite Hcur, Hnp. assert (cp' = cp) by congruence. subst cp'. rewrite Hu. reflexivity. }
+  unfold step. rewrite Hstep. cbn [fst snd]. rewrite Hc. repeat split; assumption.
+Qed.
+
+(* ------------------------------------------------------------------ timelines *)
+Definition pending_at (st : state) (c : Z) (cp np : params) (d : Z) : Prop :=
+  aget c (cur st) = Some cp /\ aget c (queued st) = Some np /\ due_of c (schedule st) = Some d.
+Definition settled_at (st : state) (c : Z) (p : params) : Prop :=
+  aget c (cur st) = Some p /\ aget c (queued st) = None.
+
+(* some begin-block of ops, run from st, has c among the first [limit] due entries *)
+Fixpoint applied_in (c : Z) (st : state) (ops : list op) : bool :=
+  match ops with
+  | [] => false
+  | o :: t => (match o with OBeginBlock now => applied_now c now st | _ => false end) || applied_in c (step st o) t
+  end.
+
+Lemma quiet_cons c o t : quiet c (o :: t) = true -> request_on c o = false /\ delete_of c o = false /\ quiet c t = true.
+Proof.
+  unfold quiet. cbn [forallb]. unfold quiet_op. intros H. apply andb_prop in H. destruct H as [H1 H2].
+  apply andb_prop in H1. destruct H1 as [Ha Hb]. apply negb_true_iff in Ha. apply negb_true_iff in Hb. tauto.
+Qed.
+
+Lemma step_block st now : step st (OBeginBlock now) = fst (begin_block now st).
+Proof. reflexivity. Qed.
+
+Lemma settled_stable ops : forall st c p,
+  Inv st -> aget c (phases st) <> None -> settled_at st c p -> quiet c ops = true ->
+  settled_at (exec st ops) c p /\ applied_in c st ops = false.
+Proof.
+  induction ops as [|o t IH]; intros st c p HI Hex [Hc Hq] Hqu; [split; [split; assumption|reflexivity]|].
+  destruct (quiet_cons c o t Hqu) as [Hr [Hd Hqt]]. cbn [exec fold_left applied_in].
+  assert (Hst : settled_at (step st o) c p /\
+                (match o with OBeginBlock now => applied_now c now st | _ => false end) = false).
+  { destruct (is_block o) eqn:Eb.
+    - destruct o; try discriminate. rewrite step_block.
+      destruct (begin_block_spec st now HI) as [st' [Hb [_ [_ [_ [_ Hper]]]]]]. rewrite Hb. cbn [fst].
+      specialize (Hper c). rewrite (not_queued_not_applied st c now HI Hq) in *.
+      destruct Hper as [H1 [H2 _]]. split; [split; congruence|reflexivity].
+    - destruct (frame st o c HI Hr Eb) as [Hcu [[Hqq _]|[Hdel _]]]; [|congruence].
+      split; [split; [rewrite (Hcu Hex); exact Hc|congruence]|]. destruct o; try reflexivity. discriminate. }
+  destruct Hst as [Hs Hn]. rewrite Hn. cbn [orb].
+  apply IH; [apply inv_step; exact HI|apply exists_step; assumption|exact Hs|exact Hqt].
+Qed.
+
+Lemma pending_run ops : forall st c cp np d,
+  Inv st -> aget c (phases st) <> None -> pending_at st c cp np d -> quiet c ops = true ->
+  if applied_in c st ops
+  then settled_at (exec st ops) c np /\ occ c (schedule (exec st ops)) = 0%nat
+  else pending_at (exec st ops) c cp np d.
+Proof.
+  induction ops as [|o t IH]; intros st c cp np d HI Hex [Hc [Hq Hd]] Hqu; [repeat split; assumption|].
+  destruct (quiet_cons c o t Hqu) as [Hr [Hdl Hqt]]. cbn [exec fold_left applied_in].
+  destruct (is_block o) eqn:Eb.
+  - destruct o; try discriminate. rewrite step_block.
+    destruct (begin_block_spec st now HI) as [st' [Hb [HI' [_ [_ [Hph Hper]]]]]]. rewrite Hb. cbn [fst].
+    specialize (Hper c). destruct (applied_now c now st).
+    + cbn [orb]. destruct Hper as [H1 [_ [H3 _]]].
+      assert (Hs : settled_at st' c np) by (split; congruence).
+      destruct (settled_stable t st' c np HI') as [Hfin _]; [rewrite Hph; exact Hex|exact Hs|exact Hqt|].
+      split; [exact Hfin|]. apply queued_none_occ; [apply inv_exec; exact HI'|exact (proj2 Hfin)].
+    + cbn [orb]. destruct Hper as [H1 [H2 H3]].
+      apply IH; [exact HI'|rewrite Hph; exact Hex|repeat split; congruence|exact Hqt].
+  - destruct (frame st o c HI Hr Eb) as [Hcu [[Hqq Hdd]|[Hdel _]]]; [|congruence].
+    assert (Hn : (match o with OBeginBlock now => applied_now c now st | _ => false end) = false)
+      by (destruct o; try reflexivity; discriminate).
+    rewrite Hn. cbn [orb].
+    apply IH; [apply inv_step; exact HI|apply exists_step; assumption| |exact Hqt].
+    repeat split; [rewrite (Hcu Hex); exact Hc|congruence|congruence].
+Qed.
+
+(* a pending change can only be applied by a begin-block whose time has reached its due time *)
+Lemma applied_now_due st c cp np d now :
+  pending_at st c cp np d -> applied_now c now st = true -> d <= now.
+Proof.
+  intros [_ [_ Hd]] Ha. unfold applied_now in Ha. apply mem_true_iff in Ha. apply in_firstn in Ha.
+  destruct (due_list_due now c (schedule st) Ha) as [t [Ht Hle]]. congruence.
+Qed.
+
+(* and it is applied by the begin-block when it is due and among the first [limit] due entries; when at most
+   [limit] entries are due, being due suffices *)
+Lemma applied_now_small st c cp np d now :
+  Inv st -> pending_at st c cp np d -> d <= now ->
+  (length (due_list now (schedule st)) <= limit)%nat -> applied_now c now st = true.
+Proof.
+  intros HI [_ [_ Hd]] Hle Hlen. unfold applied_now. rewrite firstn_all2 by exact Hlen.
+  apply mem_true_iff. exact (due_due_list now c d (schedule st) (inv_sorted st HI) Hd Hle).
+Qed.
+
+Lemma applied_in_due ops : forall st c cp np d,
+  Inv st -> aget c (phases st) <> None -> pending_at st c cp np d -> quiet c ops = true ->
+  applied_in c st ops = true -> exists now, In (OBeginBlock now) ops /\ d <= now.
+Proof.
+  induction ops as [|o t IH]; intros st c cp np d HI Hex Hp Hqu Ha; [discriminate|].
+  destruct (quiet_cons c o t Hqu) as [Hr [Hdl Hqt]]. cbn [applied_in] in Ha.
+  destruct (match o with OBeginBlock now => applied_now c now st | _ => false end) eqn:E1.
+  - destruct o; try discriminate. exists now. split; [left; reflexivity|exact (applied_now_due st c cp np d now Hp E1)].
+  - cbn [orb] in Ha.
+    assert (Hp' : pending_at (step st o) c cp np d).
+    { pose proof (pending_run [o] st c cp np d HI Hex Hp) as H1. cbn [applied_in] in H1. rewrite E1 in H1.
+      cbn [orb exec fold_left] in H1. apply H1. unfold quiet. cbn [forallb]. unfold quiet_op. rewrite Hr, Hdl. reflexivity. }
+    destruct (IH (step st o) c cp np d (inv_step st o HI) (exists_step st o c HI Hex) Hp' Hqt Ha) as [now [Hin Hle]].
+    exists now. split; [right; exact Hin|exact Hle].
+Qed.
+
+Lemma applied_in_app c a : forall st b, applied_in c st (a ++ b) = applied_in c st a || applied_in c (exec st a) b.
+Proof.
+  induction a as [|o t IH]; intros st b; [reflexivity|]. cbn [app applied_in exec fold_left]. rewrite IH, orb_assoc. reflexivity.
+Qed.
+
+(* ------------------------------------------------------------------ counting applications *)
+Definition pend_n (st : state) (c : Z) : nat := if aget c (queued st) then 1%nat else 0%nat.
+Definition app_one (c : Z) (st : state) (o : op) : nat :=
+  match o with OBeginBlock now => if applied_now c now st then 1%nat else 0%nat | _ => 0%nat end.
+(* o is a request on c that left a change queued *)
+Definition req_one (c : Z) (st : state) (o : op) : nat :=
+  if request_on c o && (match aget c (queued (step st o)) with Some _ => true | None => false end) then 1%nat else 0%nat.
+Fixpoint app_count (c : Z) (st : state) (ops : list op) : nat :=
+  match ops with [] => 0%nat | o :: t => (app_one c st o + app_count c (step st o) t)%nat end.
+Fixpoint req_count (c : Z) (st : state) (ops : list op) : nat :=
+  match ops with [] => 0%nat | o :: t => (req_one c st o + req_count c (step st o) t)%nat end.
+
+Lemma count_step st o c : Inv st -> (app_one c st o + pend_n (step st o) c <= pend_n st c + req_one c st o)%nat.
+Proof.
+  intros HI. unfold pend_n, req_one. destruct (request_on c o) eqn:Er.
+  - cbn [andb]. assert (Ha : app_one c st o = 0%nat) by (destruct o; try reflexivity; discriminate).
+    rewrite Ha. destruct (aget c (queued (step st o))); destruct (aget c (queued st)); lia.
+  - cbn [andb]. destruct (is_block o) eqn:Eb.
+    + destruct o; try discriminate. cbn [app_one]. rewrite step_block.
+      destruct (begin_block_spec st now HI) as [st' [Hb [_ [_ [_ [_ Hper]]]]]]. rewrite Hb. cbn [fst].
+      specialize (Hper c). destruct (applied_now c now st).
+      * destruct Hper as [_ [H2 [H3 _]]]. rewrite H3. destruct (aget c (queued st)); [lia|congruence].
+      * destruct Hper as [_ [H2 _]]. rewrite H2. lia.
+    + assert (Ha : app_one c st o = 0%nat) by (destruct o; try reflexivity; discriminate). rewrite Ha.
+      destruct (frame st o c HI Er Eb) as [_ [[Hq _]|[_ [Hq _]]]]; rewrite Hq; destruct (aget c (queued st)); lia.
+Qed.
+
+Lemma count_exec ops : forall st c, Inv st ->
+  (app_count c st ops + pend_n (exec st ops) c <= pend_n st c + req_count c st ops)%nat.
+Proof.
+  induction ops as [|o t IH]; intros st c HI; cbn [app_count req_count]; [cbn [exec fold_left]; lia|].
+  change (exec st (o :: t)) with (exec (step st o) t).
+  pose proof (count_step st o c HI). pose proof (IH (step st o) c (inv_step st o HI)). lia.
+Qed.
+
+(* ------------------------------------------------------------------ deleted consumers are frozen *)
+Lemma step_deleted st o c :
+  Inv st -> aget c (phases st) = Some Deleted ->
+  aget c (phases (step st o)) = Some Deleted /\ aget c (cur (step st o)) = aget c (cur st) /\
+  aget c (queued (step st o)) = None.
+Proof.
+  intros HI Hph.
+  assert (Hq : aget c (queued st) = None).
+  { destruct (aget c (queued st)) eqn:E; [|reflexivity].
+    assert (Hne : aget c (queued st) <> None) by congruence. destruct (inv_qphase st HI c Hne); congruence. }
+  assert (Hex : aget c (phases st) <> None) by congruence.
+  split.
+  { destruct (phases_step st o c HI) as [H|[[H _]|[[H _]|[[H _]|[H _]]]]]; congruence. }
+  destruct (request_on c o) eqn:Er.
+  - assert (Hna : is_active st c = false) by (unfold is_active, is_prelaunch, is_launched; rewrite Hph; reflexivity).
+    assert (Hnl : is_launched st c = false) by (unfold is_launched; rewrite Hph; reflexivity).
+    destruct o; cbn [request_on] in Er; try discriminate.
+    + destruct r; [|discriminate]. apply Z.eqb_eq in Er. subst c0. unfold step. cbn [step_res]. unfold update.
+      destruct (negb (valid_req (Some p))); [split; [reflexivity|exact Hq]|]. rewrite Hna. cbn [negb fst]. split; [reflexivity|exact Hq].
+    + apply Z.eqb_eq in Er. subst c0. unfold step. cbn [step_res]. unfold queue_direct. rewrite Hnl. cbn [negb fst].
+      split; [reflexivity|exact Hq].
+  - destruct (is_block o) eqn:Eb.
+    + destruct o; try discriminate. rewrite step_block.
+      destruct (begin_block_spec st now HI) as [st' [Hb [_ [_ [_ [_ Hper]]]]]]. rewrite Hb. cbn [fst].
+      specialize (Hper c). rewrite (not_queued_not_applied st c now HI Hq) in Hper.
+      destruct Hper as [H1 [H2 _]]. split; congruence.
+    + destruct (frame st o c HI Er Eb) as [Hcu [[Hqq _]|[_ [Hqq _]]]]; split; try (exact (Hcu Hex)); congruence.
+Qed.
+
+Lemma deleted_frozen ops : forall st c,
+  Inv st -> aget c (phases st) = Some Deleted ->
+  aget c (phases (exec st ops)) = Some Deleted /\ aget c (cur (exec st ops)) = aget c (cur st) /\
+  aget c (queued (exec st ops)) = None /\ occ c (schedule (exec st ops)) = 0%nat.
+Proof.
+  induction ops as [|o t IH]; intros st c HI Hph.
+  - cbn [exec fold_left]. assert (Hq : aget c (queued st) = None).
+    { destruct (aget c (queued st)) eqn:E; [|reflexivity].
+      assert (Hne : aget c (queued st) <> None) by congruence. destruct (inv_qphase st HI c Hne); congruence. }
+    repeat split; try assumption. exact (queued_none_occ st c HI Hq).
+  - change (exec st (o :: t)) with (exec (step st o) t).
+    destruct (step_deleted st o c HI Hph) as [H1 [H2 _]].
+    destruct (IH (step st o) c (inv_step st o HI) H1) as [H3 [H4 [H5 H6]]].
+    repeat split; try assumption. congruence.
+Qed.
+
+(* ------------------------------------------------------------------ the clauses of C20 *)
+Definition view_of (p : params) (kind : Z) : list Z :=
+  if kind =? 0 then [h_frac (p_dt p); h_jail (p_dt p)] else [h_frac (p_ds p); h_jail (p_ds p); h_tomb (p_ds p)].
+
+Lemma c20_consistency ops c :
+  let st := exec init ops in
+  occ c (schedule st) = (if aget c (queued st) then 1%nat else 0%nat) /\
+  (aget c (queued st) <> None <-> exists d, due_of c (schedule st) = Some d) /\
+  (aget c (queued st) <> None -> aget c (phases st) = Some Launched \/ aget c (phases st) = Some Stopped) /\
+  (forall p q, aget c (cur st) = Some p -> aget c (queued st) = Some q -> params_eqb p q = false) /\
+  ssorted (schedule st).
+Proof.
+  cbn zeta. pose proof (inv_reachable ops) as HI. split; [exact (inv_occ _ HI c)|]. split.
+  - rewrite due_of_some_occ, (inv_occ _ HI c). destruct (aget c (queued (exec init ops))); split; try congruence; lia.
+  - split; [exact (inv_qphase _ HI c)|]. split; [exact (inv_diff _ HI c)|exact (inv_sorted _ HI)].
+Qed.
+
+Lemma c20_create_immediate ops d r :
+  let st := exec init ops in
+  valid_req r = true ->
+  snd (step_res st (OCreate d r)) = r_ok /\
+  aget (next_id st) (cur (step st (OCreate d r))) = Some (match r with None => d | Some hv => merge d hv end) /\
+  aget (next_id st) (queued (step st (OCreate d r))) = None /\
+  aget (next_id st) (phases (step st (OCreate d r))) = Some Prelaunch.
+Proof.
+  cbn zeta. intros Hv. pose proof (inv_reachable ops) as HI. unfold step. cbn [step_res]. unfold create. rewrite Hv.
+  cbn [negb fst snd cur queued phases]. rewrite !aget_aput_eq. repeat split. exact (proj2 (fresh_id _ HI)).
+Qed.
+
+Lemma c20_prelaunch_immediate ops c cp hv u :
+  let st := exec init ops in
+  aget c (phases st) = Some Prelaunch -> aget c (cur st) = Some cp -> valid_req (Some hv) = true ->
+  snd (step_res st (OUpdate c true (Some hv) u)) = r_ok /\
+  let st' := step st (OUpdate c true (Some hv) u) in
+  aget c (cur st') = Some (merge cp hv) /\ aget c (queued st') = None /\
+  schedule st' = schedule st /\ occ c (schedule st') = 0%nat.
+Proof.
+  cbn zeta. intros Hph Hcur Hv. pose proof (inv_reachable ops) as HI. set (st := exec init ops) in *.
+  assert (Hq : aget c (queued st) = None).
+  { destruct (aget c (queued st)) eqn:E; [|reflexivity].
+    assert (Hne : aget c (queued st) <> None) by congruence. destruct (inv_qphase st HI c Hne); congruence. }
+  assert (Hp : is_prelaunch st c = true) by (unfold is_prelaunch; rewrite Hph; reflexivity).
+  unfold step. cbn [step_res]. unfold update. rewrite Hv. unfold is_active. rewrite Hp. cbn [negb orb].
+  rewrite Hcur. cbn [fst snd cur queued schedule]. rewrite aget_aput_eq.
+  repeat split; try assumption. exact (queued_none_occ st c HI Hq).
+Qed.
+
+Lemma c20_prelaunch_no_pending ops c :
+  let st := exec init ops in aget c (phases st) = Some Prelaunch -> aget c (queued st) = None /\ occ c (schedule st) = 0%nat.
+Proof.
+  cbn zeta. intros Hph. pose proof (inv_reachable ops) as HI.
+  assert (Hq : aget c (queued (exec init ops)) = None).
+  { destruct (aget c (queued (exec init ops))) eqn:E; [|reflexivity].
+    assert (Hne : aget c (queued (exec init ops)) <> None) by congruence. destruct (inv_qphase _ HI c Hne); congruence. }
+  split; [exact Hq|exact (queued_none_occ _ c HI Hq)].
+Qed.
+
+(* the state right after a request that differs from the current values *)
+Lemma request_pending st c cp np u o :
+  Inv st -> aget c (phases st) = Some Launched -> aget c (cur st) = Some cp -> is_request st c np u o ->
+  params_eqb cp np = false -> pending_at (step st o) c cp np (clock st + u).
+Proof.
+  intros HI Hph Hcur Hreq Hne. destruct (request_spec st c cp np u o HI Hph Hcur Hreq) as [_ [Hc [_ Hres]]].
+  rewrite Hne in Hres. destruct Hres as [Hq Hd]. repeat split; assumption.
+Qed.
+
+Lemma c20_delay ops1 c cp np u o ops2 :
+  let s1 := exec init ops1 in
+  aget c (phases s1) = Some Launched -> aget c (cur s1) = Some cp ->
+  is_request s1 c np u o -> params_eqb cp np = false -> quiet c ops2 = true ->
+  let s3 := exec (step s1 o) ops2 in
+  if applied_in c (step s1 o) ops2
+  then aget c (cur s3) = Some np /\ aget c (queued s3) = None /\ occ c (schedule s3) = 0%nat
+  else aget c (cur s3) = Some cp /\ aget c (queued s3) = Some np /\ due_of c (schedule s3) = Some (clock s1 + u).
+Proof.
+  cbn zeta. intros Hph Hcur Hreq Hne Hqu. pose proof (inv_reachable ops1) as HI. set (s1 := exec init ops1) in *.
+  pose proof (request_pending s1 c cp np u o HI Hph Hcur Hreq Hne) as Hp.
+  assert (Hex : aget c (phases (step s1 o)) <> None) by (apply exists_step; [exact HI|congruence]).
+  pose proof (pending_run ops2 (step s1 o) c cp np (clock s1 + u) (inv_step s1 o HI) Hex Hp Hqu) as H.
+  destruct (applied_in c (step s1 o) ops2).
+  - destruct H as [[H1 H2] H3]. repeat split; assumption.
+  - exact H.
+Qed.
+
+Lemma c20_delay_when ops1 c cp np u o ops2 :
+  let s1 := exec init ops1 in
+  aget c (phases s1) = Some Launched -> aget c (cur s1) = Some cp ->
+  is_request s1 c np u o -> params_eqb cp np = false -> quiet c ops2 = true ->
+  applied_in c (step s1 o) ops2 = true -> exists now, In (OBeginBlock now) ops2 /\ clock s1 + u <= now.
+Proof.
+  cbn zeta. intros Hph Hcur Hreq Hne Hqu Ha. pose proof (inv_reachable ops1) as HI. set (s1 := exec init ops1) in *.
+  pose proof (request_pending s1 c cp np u o HI Hph Hcur Hreq Hne) as Hp.
+  assert (Hex : aget c (phases (step s1 o)) <> None) by (apply exists_step; [exact HI|congruence]).
+  exact (applied_in_due ops2 (step s1 o) c cp np (clock s1 + u) (inv_step s1 o HI) Hex Hp Hqu Ha).
+Qed.
+
+Lemma c20_not_before ops1 c cp np u o ops2 :
+  let s1 := exec init ops1 in
+  aget c (phases s1) = Some Launched -> aget c (cur s1) = Some cp ->
+  is_request s1 c np u o -> params_eqb cp np = false -> quiet c ops2 = true ->
+  (forall now, In (OBeginBlock now) ops2 -> now < clock s1 + u) ->
+  let s3 := exec (step s1 o) ops2 in
+  aget c (cur s3) = Some cp /\ aget c (queued s3) = Some np /\ due_of c (schedule s3) = Some (clock s1 + u).
+Proof.
+  cbn zeta. intros Hph Hcur Hreq Hne Hqu Hearly.
+  pose proof (c20_delay ops1 c cp np u o ops2 Hph Hcur Hreq Hne Hqu) as H. cbn zeta in H.
+  destruct (applied_in c (step (exec init ops1) o) ops2) eqn:Ea; [|exact H].
+  destruct (c20_delay_when ops1 c cp np u o ops2 Hph Hcur Hreq Hne Hqu Ea) as [now [Hin Hle]].
+  specialize (Hearly now Hin). lia.
+Qed.
+
+(* the first begin-block at or after the due time in which c is among the first [limit] due entries applies it *)
+Lemma c20_in_force_from ops1 c cp np u o opsA now :
+  let s1 := exec init ops1 in
+  aget c (phases s1) = Some Launched -> aget c (cur s1) = Some cp ->
+  is_request s1 c np u o -> params_eqb cp np = false -> quiet c opsA = true ->
+  applied_in c (step s1 o) opsA = false ->
+  let sA := exec (step s1 o) opsA in
+  applied_now c now sA = true ->
+  clock s1 + u <= now /\
+  let sB := step sA (OBeginBlock now) in
+  aget c (cur sB) = Some np /\ aget c (queued sB) = None /\ occ c (schedule sB) = 0%nat.
+Proof.
+  cbn zeta. intros Hph Hcur Hreq Hne Hqu HnA Hnow. pose proof (inv_reachable ops1) as HI. set (s1 := exec init ops1) in *.
+  pose proof (request_pending s1 c cp np u o HI Hph Hcur Hreq Hne) as Hp.
+  assert (Hex : aget c (phases (step s1 o)) <> None) by (apply exists_step; [exact HI|congruence]).
+  pose proof (pending_run opsA (step s1 o) c cp np (clock s1 + u) (inv_step s1 o HI) Hex Hp Hqu) as H.
+  rewrite HnA in H. split; [exact (applied_now_due _ c cp np _ now H Hnow)|].
+  assert (HIA : Inv (exec (step s1 o) opsA)) by (apply inv_exec; apply inv_step; exact HI).
+  rewrite step_block. destruct (begin_block_spec _ now HIA) as [st' [Hb [_ [_ [_ [_ Hper]]]]]]. rewrite Hb. cbn [fst].
+  specialize (Hper c). rewrite Hnow in Hper. destruct H as [_ [Hq _]]. destruct Hper as [H1 [_ [H3 H4]]].
+  repeat split; congruence.
+Qed.
+
+(* with at most [limit] entries due, being due is enough *)
+Lemma c20_in_force_at_due ops1 c cp np u o opsA now :
+  let s1 := exec init ops1 in
+  aget c (phases s1) = Some Launched -> aget c (cur s1) = Some cp ->
+  is_request s1 c np u o -> params_eqb cp np = false -> quiet c opsA = true ->
+  applied_in c (step s1 o) opsA = false ->
+  let sA := exec (step s1 o) opsA in
+  clock s1 + u <= now -> (length (due_list now (schedule sA)) <= limit)%nat ->
+  aget c (cur (step sA (OBeginBlock now))) = Some np.
+Proof.
+  cbn zeta. intros Hph Hcur Hreq Hne Hqu HnA Hle Hlen. pose proof (inv_reachable ops1) as HI. set (s1 := exec init ops1) in *.
+  pose proof (request_pending s1 c cp np u o HI Hph Hcur Hreq Hne) as Hp.
+  assert (Hex : aget c (phases (step s1 o)) <> None) by (apply exists_step; [exact HI|congruence]).
+  pose proof (pending_run opsA (step s1 o) c cp np (clock s1 + u) (inv_step s1 o HI) Hex Hp Hqu) as H.
+  rewrite HnA in H.
+  assert (HIA : Inv (exec (step s1 o) opsA)) by (apply inv_exec; apply inv_step; exact HI).
+  pose proof (applied_now_small _ c cp np _ now HIA H Hle Hlen) as Hnow.
+  exact (proj1 (proj2 (c20_in_force_from ops1 c cp np u o opsA now Hph Hcur Hreq Hne Hqu HnA Hnow))).
+Qed.
+
+Lemma c20_replace ops c cp q0 np u o :
+  let s := exec init ops in
+  aget c (phases s) = Some Launched -> aget c (cur s) = Some cp -> aget c (queued s) = Some q0 ->
+  is_request s c np u o -> params_eqb cp np = false ->
+  snd (step_res s o) = r_ok /\
+  aget c (cur (step s o)) = Some cp /\ aget c (queued (step s o)) = Some np /\
+  due_of c (schedule (step s o)) = Some (clock s + u) /\ occ c (schedule (step s o)) = 1%nat.
+Proof.
+  cbn zeta. intros Hph Hcur _ Hreq Hne. pose proof (inv_reachable ops) as HI.
+  destruct (request_spec _ c cp np u o HI Hph Hcur Hreq) as [Hok [Hc [_ Hres]]]. rewrite Hne in Hres.
+  destruct Hres as [Hq Hd]. repeat split; try assumption.
+  rewrite (inv_occ _ (inv_step _ o HI) c), Hq. reflexivity.
+Qed.
+
+Lemma c20_cancel_on_equal ops c cp np u o ops2 :
+  let s := exec init ops in
+  aget c (phases s) = Some Launched -> aget c (cur s) = Some cp ->
+  is_request s c np u o -> params_eqb cp np = true -> quiet c ops2 = true ->
+  snd (step_res s o) = r_ok /\
+  aget c (queued (step s o)) = None /\ occ c (schedule (step s o)) = 0%nat /\ due_of c (schedule (step s o)) = None /\
+  let s3 := exec (step s o) ops2 in
+  aget c (cur s3) = Some cp /\ aget c (queued s3) = None /\ applied_in c (step s o) ops2 = false.
+Proof.
+  cbn zeta. intros Hph Hcur Hreq Heq Hqu. pose proof (inv_reachable ops) as HI. set (s := exec init ops) in *.
+  destruct (request_spec s c cp np u o HI Hph Hcur Hreq) as [Hok [Hc [_ Hres]]]. rewrite Heq in Hres.
+  destruct Hres as [Hq Ho]. split; [exact Hok|]. split; [exact Hq|]. split; [exact Ho|].
+  split; [apply due_of_none_occ; exact Ho|].
+  assert (Hex : aget c (phases (step s o)) <> None) by (apply exists_step; [exact HI|congruence]).
+  destruct (settled_stable ops2 (step s o) c cp (inv_step s o HI) Hex (conj Hc Hq) Hqu) as [[H1 H2] H3].
+  repeat split; assumption.
+Qed.
+
+Lemma c20_applied_once ops c :
+  (app_count c init ops + pend_n (exec init ops) c <= req_count c init ops)%nat.
+Proof. pose proof (count_exec ops init c inv_init) as H. exact H. Qed.
+
+Lemma c20_discarded_on_delete ops c ops2 :
+  let s := exec init ops in
+  aget c (phases s) = Some Stopped ->
+  snd (step_res s (ODelete c)) = r_ok /\
+  let s' := step s (ODelete c) in
+  aget c (queued s') = None /\ occ c (schedule s') = 0%nat /\
+  let s'' := exec s' ops2 in
+  aget c (phases s'') = Some Deleted /\ aget c (cur s'') = aget c (cur s) /\
+  aget c (queued s'') = None /\ occ c (schedule s'') = 0%nat.
+Proof.
+  cbn zeta. intros Hph. pose proof (inv_reachable ops) as HI. set (s := exec init ops) in *.
+  destruct (delete_spec s c HI Hph) as [st' [Hd [HI' [_ [Hc [Hp [_ [Hq [Ho _]]]]]]]]].
+  unfold step. cbn [step_res]. rewrite Hd. cbn [fst snd]. split; [reflexivity|]. split; [exact Hq|]. split; [exact Ho|].
+  destruct (deleted_frozen ops2 st' c HI' Hp) as [H1 [H2 [H3 H4]]]. repeat split; try assumption. congruence.
+Qed.
+
+Lemma c20_used ops c kind pre p :
+  let st := exec init ops in
+  aget c (cur st) = Some p ->
+  slash_view st c kind = Some (view_of p kind) /\
+  op_obs st (OSlash c kind true) = of_zs (1 :: view_of p kind) /\
+  step st (OSlash c kind pre) = st.
+Proof.
+  cbn zeta. intros Hc. unfold op_obs, slash_view, view_of. rewrite Hc.
+  destruct (kind =? 0); repeat split; reflexivity.
+Qed.
+
+(* which parameters an infraction handled after a request is punished with *)
+Lemma c20_used_timeline ops1 c cp np u o ops2 kind :
+  let s1 := exec init ops1 in
+  aget c (phases s1) = Some Launched -> aget c (cur s1) = Some cp ->
+  is_request s1 c np u o -> params_eqb cp np = false -> quiet c ops2 = true ->
+  slash_view (exec (step s1 o) ops2) c kind =
+    Some (view_of (if applied_in c (step s1 o) ops2 then np else cp) kind).
+Proof.
+  cbn zeta. intros Hph Hcur Hreq Hne Hqu.
+  pose proof (c20_delay ops1 c cp np u o ops2 Hph Hcur Hreq Hne Hqu) as H. cbn zeta in H.
+  destruct (applied_in c (step (exec init ops1) o) ops2); destruct H as [Hc _];
+    unfold slash_view, view_of; rewrite Hc; destruct (kind =? 0); reflexivity.
+Qed.
+
+Lemma c20_beginblock_ok ops now : snd (step_res (exec init ops) (OBeginBlock now)) = r_ok.
+Proof.
+  cbn [step_res]. destruct (begin_block_spec _ now (inv_reachable ops)) as [st' [Hb _]]. rewrite Hb. reflexivity.
+Qed.
